@@ -717,3 +717,354 @@ T('k18_mw_listing_in_classmethod', ['C18'], (META, GMI, '''def get_mw_infos(_app
 '''))
 T('k18_main_template_class_constant', ['C18'], (META, "        self._main_page_render = self._arf('meta_base.html')", "        self._main_page_render = self._arf(self.main_template_name)"),
   (META, "class MetaApplication(Application):\n", "class MetaApplication(Application):\n    main_template_name = 'meta_base.html'\n\n"))
+
+
+# ---- fourth pass -------------------------------------------------------------------------------------------------------
+# R18.a: the defaults mapping handed to a small class (constructor argument -> field -> read in the methods)
+GRAI_FULL = '''def get_route_arg_info(route):
+    fb = get_fb(route.endpoint)
+    r_args = fb.args
+    r_defaults = fb.get_defaults_dict()
+''' + GRAI
+
+_SRC_CLASS = '''class _SourceOf(object):
+    LOOKUPS = (('builtin', 'in_builtins'), ('url', 'in_path'), ('resources', 'in_resources'),
+               ('middleware', 'in_middlewares'), ('default', 'in_defaults'))
+
+    def __init__(self, route, defaults):
+        self.route = route
+        self.known_defaults = defaults
+
+    def in_builtins(self, arg):
+        return arg in RESERVED_ARGS
+
+    def in_path(self, arg):
+        return arg in self.route.path_args
+
+    def in_resources(self, arg):
+        return arg in self.route.resources
+
+    def in_middlewares(self, arg):
+        return any(arg in mw.provides for mw in self.route.middlewares)
+
+    def in_defaults(self, arg):
+        return arg in self.known_defaults
+
+    def __call__(self, arg):
+        for label, meth in self.LOOKUPS:
+            if getattr(self, meth)(arg):
+                return label
+        return None
+
+    def row(self, arg):
+        return {'name': arg, 'source': self(arg)}
+
+
+def get_route_arg_info(route):
+    fb = get_fb(route.endpoint)
+    source_of = _SourceOf(route, defaults=fb.get_defaults_dict())
+    return [source_of.row(arg) for arg in fb.args]
+'''
+T('k18_defaults_in_object_field', ['C18'], (META, GRAI_FULL, _SRC_CLASS))
+T('k18_defaults_in_object_field_copy', ['C18'], (META, GRAI_FULL, _SRC_CLASS.replace('self.known_defaults = defaults', 'self.known_defaults = dict(defaults or {})')))
+B('k18_object_field_value_read', ['C18'], 'R18.a', (META, GRAI_FULL, _SRC_CLASS.replace(
+    "        return {'name': arg, 'source': self(arg)}", "        return {'name': arg, 'source': self(arg), 'default': self.known_defaults.get(arg)}")))
+B('k18_object_field_read_outside', ['C18'], 'R18.a', (META, GRAI_FULL, _SRC_CLASS.replace(
+    "    return [source_of.row(arg) for arg in fb.args]", "    return [dict(source_of.row(arg), defaults=source_of.known_defaults) for arg in fb.args]")))
+B('k18_object_with_defaults_escapes', ['C18'], 'R18.a', (META, GRAI_FULL, _SRC_CLASS.replace(
+    "    return [source_of.row(arg) for arg in fb.args]", "    return [source_of.row(arg) for arg in fb.args] + [{'name': '*', 'source': source_of}]")))
+B('k18_object_field_by_table_getattr', ['C18'], 'R18.a', (META, GRAI_FULL, _SRC_CLASS.replace(
+    "        return {'name': arg, 'source': self(arg)}",
+    "        return {'name': arg, 'source': self(arg), 'known': [getattr(self, f) for f in ('route', 'known_defaults')]}")))
+B('k18_object_instance_dict', ['C18'], 'R18.a', (META, GRAI_FULL, _SRC_CLASS.replace(
+    "        return {'name': arg, 'source': self(arg)}", "        return dict(vars(self), name=arg, source=self(arg))")))
+
+# R18.e: textual representations of objects of the tree / what the views call on host objects
+_APP_REPR = '''        ret = ('<%s routes_count=%s resources_keys=%r middlewares=%r render_factory=%r slash_mode=%r debug=%r>'
+               % (cn, len(self.routes), list(self.resources.keys()), self.middlewares,
+                  self.render_factory, self.slash_mode, self.debug))
+'''
+_APP_REPR_DEF = "    def __repr__(self):\n        cn = self.__class__.__name__\n" + _APP_REPR + "        return ret\n"
+B('k18e_repr_prints_resources', ['C18'], 'R18.e', (A, _APP_REPR, '''        ret = ('<%s routes_count=%s resources=%r middlewares=%r render_factory=%r slash_mode=%r debug=%r>'
+               % (cn, len(self.routes), self.resources, self.middlewares,
+                  self.render_factory, self.slash_mode, self.debug))
+'''))
+B('k18e_repr_prints_sorted_items', ['C18'], 'R18.e', (A, 'list(self.resources.keys()), self.middlewares,', 'sorted(self.resources.items()), self.middlewares,'))
+B('k18e_repr_prints_values_fstring', ['C18'], 'R18.e', (A, _APP_REPR, "        ret = f'<{cn} routes_count={len(self.routes)} resources={list(self.resources.values())!r}>'\n"))
+B('k18e_repr_format_method', ['C18'], 'R18.e', (A, _APP_REPR, "        ret = '<{0} routes_count={1} resources={2!r}>'.format(cn, len(self.routes), dict(self.resources))\n"))
+B('k18e_str_prints_resources', ['C18'], 'R18.e', (A, _APP_REPR_DEF, _APP_REPR_DEF + '''
+    def __str__(self):
+        return '%s with resources %s' % (self.__class__.__name__, self.resources)
+'''))
+B('k18e_repr_via_helper_method', ['C18'], 'R18.e', (A, _APP_REPR_DEF, '''    def _summary(self):
+        return {'routes_count': len(self.routes), 'resources': self.resources, 'debug': self.debug}
+
+    def __repr__(self):
+        return '<%s %r>' % (self.__class__.__name__, self._summary())
+'''))
+B('k18e_repr_instance_dict', ['C18'], 'R18.e', (A, _APP_REPR, "        ret = '<%s %r>' % (cn, vars(self))\n"))
+B('k18e_repr_dunder_dict', ['C18'], 'R18.e', (A, _APP_REPR, "        ret = '<%s %s>' % (cn, ', '.join('%s=%r' % kv for kv in sorted(self.__dict__.items())))\n"))
+B('k18e_repr_aliased_field', ['C18'], 'R18.e', (A, "        self.resources = dict(resources or {})\n", "        self.resources = dict(resources or {})\n        self._injectables = self.resources\n"),
+  (A, 'list(self.resources.keys()), self.middlewares,', 'self._injectables, self.middlewares,'))
+B('k18e_bound_route_repr_resources', ['C18'], 'R18.e', (R, "        return '<%s route=%r bound_app=%r>' % (cn, self.unbound_route, self.bound_apps[-1])",
+                                                          "        return '<%s route=%r resources=%r>' % (cn, self.unbound_route, self.resources)"))
+B('k18e_attrs_repr_field', ['C18'], 'R18.e', (A, "    wsgi_app = attr.ib()\n", "    wsgi_app = attr.ib()\n    resources = attr.ib(default=None)\n"))
+B('k18e_attrs_repr_secret_field', ['C18'], 'R18.e', (A, "    wsgi_app = attr.ib()\n", "    wsgi_app = attr.ib()\n    secret_key = attr.ib(default=None)\n"))
+B('k18e_nonmw_repr_key_material', ['C18'], 'R18.e', (A, "        return '<%s exceptions=%r allowed_methods=%r>' % args",
+                                                      "        return '<%s exceptions=%r allowed_methods=%r key=%r>' % (args + (self.signing_key,))"))
+B('k18e_view_calls_describe', ['C18'], 'R18.e', (A, _APP_REPR_DEF, _APP_REPR_DEF + '''
+    def describe(self):
+        return {'type': self.__class__.__name__, 'resources': dict(self.resources), 'debug': self.debug}
+'''), (META, "        ret.append({'key': key, 'value': trunc_val})\n    return ret\n",
+       "        ret.append({'key': key, 'value': trunc_val})\n    ret.append({'key': '(application)', 'value': _trunc(repr(_application.describe()))})\n    return ret\n"))
+B('k18e_view_reads_vars', ['C18'], 'R18.e', (META, "    app = _application\n    ret = []\n", "    app = _application\n    ret = [{'url_pattern': '(application)', 'args': sorted(vars(app).items())}]\n"))
+B('k18e_view_reads_dunder_dict', ['C18'], 'R18.e', (META, "        r_info['url_pattern'] = r.pattern\n", "        r_info['url_pattern'] = r.pattern\n        r_info['attrs'] = _trunc(repr(r.__dict__))\n"))
+B('k18e_view_dynamic_getattr', ['C18'], 'R18.e', (META, "        r_info['url_pattern'] = r.pattern\n",
+                                                   "        r_info['url_pattern'] = r.pattern\n        r_info['attrs'] = dict((a, repr(getattr(r, a))) for a in dir(r))\n"))
+T('k18e_repr_names_sorted', ['C18'], (A, 'list(self.resources.keys()), self.middlewares,', 'sorted(self.resources), self.middlewares,'))
+T('k18e_repr_names_joined_and_count', ['C18'], (A, _APP_REPR, '''        ret = ('<%s routes_count=%s resources_count=%s resources_keys=[%s] middlewares=%r debug=%r>'
+               % (cn, len(self.routes), len(self.resources), ', '.join(self.resources), self.middlewares, self.debug))
+'''))
+T('k18e_str_names_only', ['C18'], (A, _APP_REPR_DEF, _APP_REPR_DEF + '''
+    def __str__(self):
+        return '%s (%d routes, resources: %s)' % (self.__class__.__name__, len(self.routes), ', '.join(sorted(self.resources.keys())))
+'''))
+T('k18e_repr_redacting_items', ['C18'], (A, 'list(self.resources.keys()), self.middlewares,',
+                                         "[(k, '[REDACTED]' if 'secret' in k else type(v).__name__) for k, v in self.resources.items()], self.middlewares,"))
+T('k18e_attrs_field_not_printed', ['C18'], (A, "    wsgi_app = attr.ib()\n", "    wsgi_app = attr.ib()\n    resources = attr.ib(default=None, repr=False)\n"))
+T('k18e_view_calls_names_method', ['C18'], (A, _APP_REPR_DEF, _APP_REPR_DEF + '''
+    def describe(self):
+        return {'type': self.__class__.__name__, 'resource_names': sorted(self.resources), 'route_count': len(self.routes)}
+'''), (META, "        ret.append({'key': key, 'value': trunc_val})\n    return ret\n",
+       "        ret.append({'key': key, 'value': trunc_val})\n    ret.append({'key': '(application)', 'value': _trunc(repr(_application.describe()))})\n    return ret\n"))
+T('k18e_view_constant_table_getattr', ['C18'], (META, "        r_info['url_pattern'] = r.pattern\n",
+                                                 "        for a in ('pattern', 'methods'):\n            r_info['route_' + a] = repr(getattr(r, a))\n        r_info['url_pattern'] = r.pattern\n"))
+T('k18e_repr_dict_of_plain_record', ['C18'], (A, "        return '<%s exceptions=%r allowed_methods=%r>' % args", "        return '<%s %r>' % (self.__class__.__name__, vars(self))"))
+
+# R18.a: the listed value is a text made from the resource value, never the host object itself
+B('k18_raw_value_listed', ['C18'], 'R18.a', (META, GRI, '''def get_resource_info(_application):
+    ret = []
+    for key, val in _application.resources.items():
+        if 'secret' in key:
+            ret.append({'key': key, 'value': '[REDACTED]'})
+        else:
+            ret.append({'key': key, 'value': val})
+    return ret
+'''))
+B('k18_raw_value_in_comprehension', ['C18'], 'R18.a', (META, GRI, '''def get_resource_info(_application):
+    return [{'key': key, 'value': '[REDACTED]' if 'secret' in key else val}
+            for key, val in _application.resources.items()]
+'''))
+B('k18_raw_value_from_helper', ['C18'], 'R18.a', (META, GRI, '''def shown_resource_value(key, val):
+    if 'secret' in key:
+        return '[REDACTED]'
+    return val
+
+
+def get_resource_info(_application):
+    return [{'key': key, 'value': shown_resource_value(key, val)} for key, val in _application.resources.items()]
+'''))
+B('k18_raw_value_row_update', ['C18'], 'R18.a', (META, "            trunc_val = _trunc(repr(val))\n        ret.append({'key': key, 'value': trunc_val})",
+                                                  "            trunc_val = _trunc(repr(val))\n        cur = {'key': key, 'value': trunc_val}\n        if 'secret' not in key:\n            cur.update(raw=val)\n        ret.append(cur)"))
+T('k18_value_percent_r', ['C18'], (META, "            trunc_val = _trunc(repr(val))", "            trunc_val = _trunc('%r' % (val,))"))
+T('k18_value_format_r', ['C18'], (META, "            trunc_val = _trunc(repr(val))", "            trunc_val = _trunc('{0!r}'.format(val))"))
+T('k18_value_fstring_r', ['C18'], (META, "            trunc_val = _trunc(repr(val))", "            trunc_val = _trunc(f'{val!r}')"))
+T('k18_value_with_type_name', ['C18'], (META, "        ret.append({'key': key, 'value': trunc_val})",
+                                        "        ret.append({'key': key, 'value': trunc_val, 'type': '?' if 'secret' in key else type(val).__name__})"))
+
+# R18.f: kinds of the values put into the page contexts
+B('k18f_class_object_attr', ['C18'], 'R18.f', (META, "        cur['type_name'] = mw.__class__.__name__\n", "        cur['type_name'] = mw.__class__.__name__\n        cur['type'] = mw.__class__\n"))
+B('k18f_class_object_type_call', ['C18'], 'R18.f', (META, "            ret['arg'] = render_arg.__class__.__name__", "            ret['arg'] = type(render_arg)"))
+B('k18f_endpoint_object', ['C18'], 'R18.f', (META, "        r_info['endpoint'] = get_endpoint_info(r)\n", "        r_info['endpoint'] = get_endpoint_info(r)\n        r_info['endpoint_obj'] = r.endpoint\n"))
+B('k18f_exception_object', ['C18'], 'R18.f', (META, "                peri_ctx = {'exc_content': repr(e)}", "                peri_ctx = {'exc_content': repr(e), 'exc': e}"))
+B('k18f_generator_stored', ['C18'], 'R18.f', (META, "    ret['version_info'] = list(sys.version_info)", "    ret['version_info'] = (int(v) for v in sys.version_info[:3])"))
+B('k18f_map_stored', ['C18'], 'R18.f', (META, "    ret['version_info'] = list(sys.version_info)", "    ret['version_info'] = map(str, sys.version_info)"))
+B('k18f_module_stored', ['C18'], 'R18.f', (META, "    ret['platform'] = platform.platform()", "    ret['platform'] = platform"))
+B('k18f_function_stored', ['C18'], 'R18.f', (META, "    ret['rusage'] = get_rusage_dict()", "    ret['rusage'] = get_rusage_dict"))
+B('k18f_bound_method_stored', ['C18'], 'R18.f', (META, "        full_ctx = {'page_title': self.page_title}", "        full_ctx = {'page_title': self.page_title, 'main': self.get_main}"))
+B('k18f_class_via_helper_return', ['C18'], 'R18.f', (META, "def get_mw_infos(_application):\n", "def mw_type(mw):\n    return type(mw)\n\n\ndef get_mw_infos(_application):\n"),
+  (META, "        cur['type_name'] = mw.__class__.__name__\n", "        cur['type_name'] = mw.__class__.__name__\n        cur['type'] = mw_type(mw)\n"))
+B('k18f_instance_stored', ['C18'], 'R18.f', (META, "        return {'middlewares': get_mw_infos(_application)}", "        return {'middlewares': get_mw_infos(_application), 'section': MiddlewarePeripheral()}"))
+B('k18f_generator_function_result', ['C18'], 'R18.f', (META, GMI, '''def iter_mw_infos(_application):
+    for mw in _application.middlewares:
+        yield {'type_name': mw.__class__.__name__, 'provides': mw.provides, 'requires': mw.requires, 'repr': repr(mw)}
+
+
+def get_mw_infos(_application):
+    return iter_mw_infos(_application)
+'''))
+T('k18f_type_name', ['C18'], (META, "        cur['type_name'] = mw.__class__.__name__\n", "        cur['type_name'] = type(mw).__name__\n        cur['module'] = type(mw).__module__\n"))
+T('k18f_map_materialised', ['C18'], (META, "    ret['version_info'] = list(sys.version_info)", "    ret['version_info'] = list(map(int, sys.version_info[:3])) + [str(v) for v in sys.version_info[3:]]"))
+T('k18f_generator_in_tuple_call', ['C18'], (META, "    ret['version_info'] = list(sys.version_info)", "    ret['version_info'] = tuple(v for v in sys.version_info)"))
+T('k18f_exception_text', ['C18'], (META, "                peri_ctx = {'exc_content': repr(e)}", "                peri_ctx = {'exc_content': repr(e), 'exc_type': type(e).__name__, 'exc_text': str(e)}"))
+T('k18f_function_name', ['C18'], (META, "    ret['rusage'] = get_rusage_dict()", "    ret['rusage'] = get_rusage_dict()\n    ret['rusage_source'] = get_rusage_dict.__name__"))
+T('k18f_generator_function_listed', ['C18'], (META, GMI, '''def iter_mw_infos(_application):
+    for mw in _application.middlewares:
+        yield {'type_name': mw.__class__.__name__, 'provides': mw.provides, 'requires': mw.requires, 'repr': repr(mw)}
+
+
+def get_mw_infos(_application):
+    return list(iter_mw_infos(_application))
+'''))
+
+# R18.c: sibling views -- every routed method of the meta application that runs peripheral code does so per peripheral, fail-soft
+_JSON_ROUTE = "                  ('/json/', self.get_main, render_json)]"
+_GET_MAIN_DEF = "    def get_main(self, request, _application, _route, script_root):\n"
+B('k18c_json_route_unprotected_endpoint', ['C18'], 'R18.c', (META, _JSON_ROUTE, "                  ('/json/', self.get_main_json, render_json)]"),
+  (META, _GET_MAIN_DEF, '''    def get_main_json(self, request, _application, _route, script_root):
+        kwargs = {'request': request, '_route': _route, '_application': _application,
+                  '_meta_application': self, 'script_root': script_root}
+        ret = {'page_title': self.page_title}
+        for peri in self.peripherals:
+            ret.setdefault(peri.group_key, {}).update(inject(peri.get_context, kwargs))
+        return ret
+
+''' + _GET_MAIN_DEF))
+B('k18c_extra_section_route_unprotected', ['C18'], 'R18.c', (META, _JSON_ROUTE, "                  ('/json/', self.get_main, render_json),\n                  ('/json/<group_key>', self.get_group, render_json)]"),
+  (META, _GET_MAIN_DEF, '''    def get_group(self, group_key, request, _application, _route, script_root):
+        kwargs = {'request': request, '_route': _route, '_application': _application,
+                  '_meta_application': self, 'script_root': script_root}
+        ret = {}
+        try:
+            for peri in self.peripherals:
+                if peri.group_key == group_key:
+                    ret.update(inject(peri.get_context, kwargs))
+        except Exception as e:
+            ret = {'exc_content': repr(e)}
+        return ret
+
+''' + _GET_MAIN_DEF))
+B('k18c_plain_renderer_direct_calls', ['C18'], 'R18.c', (META, _JSON_ROUTE, "                  ('/json/', self.get_main, render_json),\n                  ('/plain/', self.get_main, self.render_plain)]"),
+  (META, _GET_MAIN_DEF, '''    def render_plain(self, context):
+        parts = []
+        for peri in self.peripherals:
+            parts.append(peri.render_main_page_html(context[peri.group_key]) or '')
+        return '\\n'.join(parts)
+
+''' + _GET_MAIN_DEF))
+T('k18c_json_route_delegating_endpoint', ['C18'], (META, _JSON_ROUTE, "                  ('/json/', self.get_main_json, render_json)]"),
+  (META, _GET_MAIN_DEF, '''    def get_main_json(self, request, _application, _route, script_root):
+        return self.get_main(request, _application, _route, script_root)
+
+''' + _GET_MAIN_DEF))
+T('k18c_extra_section_route_protected', ['C18'], (META, _JSON_ROUTE, "                  ('/json/', self.get_main, render_json),\n                  ('/json/<group_key>', self.get_group, render_json)]"),
+  (META, _GET_MAIN_DEF, '''    def get_group(self, group_key, request, _application, _route, script_root):
+        kwargs = {'request': request, '_route': _route, '_application': _application,
+                  '_meta_application': self, 'script_root': script_root}
+        ret = {}
+        for peri in self.peripherals:
+            if peri.group_key != group_key:
+                continue
+            try:
+                ret.update(inject(peri.get_context, kwargs))
+            except Exception as e:
+                ret.update({'exc_content': repr(e)})
+        return ret
+
+''' + _GET_MAIN_DEF))
+T('k18c_routes_built_by_method', ['C18'], (META, "        routes = [('/', self.get_main, self.render_main_page_html),\n                  ('/clastic_assets/', META_ASSETS_APP),\n" + _JSON_ROUTE,
+                                          "        routes = self._own_routes()"),
+  (META, _GET_MAIN_DEF, '''    def _own_routes(self):
+        html = Route('/', self.get_main, self.render_main_page_html)
+        as_json = Route('/json/', endpoint=self.get_main, render=render_json)
+        return [html, ('/clastic_assets/', META_ASSETS_APP), as_json]
+
+''' + _GET_MAIN_DEF), (META, "from .application import Application, NullRoute, RESERVED_ARGS", "from .application import Application, NullRoute, RESERVED_ARGS\nfrom .route import Route"))
+
+# R18.c: the placeholder the handler stores is what the code after the try statement reports
+B('k18c_placeholder_then_continue', ['C18'], 'R18.c', (META, "                peri_ctx = {'exc_content': repr(e)}\n", "                peri_ctx = {'exc_content': repr(e)}\n                continue\n"))
+B('k18c_placeholder_other_name', ['C18'], 'R18.c', (META, "                peri_ctx = {'exc_content': repr(e)}\n", "                failed_ctx = {'exc_content': repr(e)}\n"),
+  (META, "        for peri in self.peripherals:\n            try:\n                peri_ctx = inject(peri.get_context, kwargs)", "        peri_ctx = {}\n        for peri in self.peripherals:\n            try:\n                peri_ctx = inject(peri.get_context, kwargs)"))
+B('k18c_general_items_placeholder_unused', ['C18'], 'R18.c', (META, "            except Exception as e:\n                cur_general_items = []\n", "            except Exception as e:\n                no_items = []\n"),
+  (META, "            try:\n                cur_general_items = inject(peri.get_general_items, kwargs)", "            cur_general_items = []\n            try:\n                cur_general_items = inject(peri.get_general_items, kwargs)"))
+T('k18c_placeholder_stored_then_continue', ['C18'], (META, "                peri_ctx = {'exc_content': repr(e)}\n            full_ctx.setdefault(peri.group_key, {}).update(peri_ctx)\n",
+                                                    "                full_ctx.setdefault(peri.group_key, {}).update({'exc_content': repr(e)})\n                continue\n            full_ctx.setdefault(peri.group_key, {}).update(peri_ctx)\n"))
+T('k18c_placeholder_two_names', ['C18'], (META, "                peri_ctx = {'exc_content': repr(e)}\n", "                failure = repr(e)\n                peri_ctx = {'exc_content': failure}\n"))
+
+# getattr(x, 'resources', default) is the same read as x.resources (a source of R18.a's value flow)
+T('k18_getattr_resources_membership', ['C18'], (META, "        elif arg in route.resources:", "        elif arg in getattr(route, 'resources', {}):"))
+B('k18_getattr_resources_values', ['C18'], 'R18.a', (META, "        r_info['args'] = get_route_arg_info(r)\n",
+                                                     "        r_info['args'] = get_route_arg_info(r)\n        r_info['resources'] = dict((k, _trunc(repr(v))) for k, v in getattr(r, 'resources', {}).items())\n"))
+B('k18_getattr_resources_wrong_key_tested', ['C18'], 'R18.a', (META, "        ret.append({'key': key, 'value': trunc_val})\n    return ret\n", '''        ret.append({'key': key, 'value': trunc_val})
+    for route in _application.routes:
+        for rkey, rval in getattr(route, 'resources', {}).items():
+            if 'secret' in key:
+                trunc_val = '[REDACTED]'
+            else:
+                trunc_val = _trunc(repr(rval))
+            ret.append({'key': '%s (%s)' % (rkey, route.pattern), 'value': trunc_val})
+    return ret
+'''))
+T('k18e_view_endpoint_repr', ['C18'], (META, "        r_info['endpoint'] = get_endpoint_info(r)\n", "        r_info['endpoint'] = get_endpoint_info(r)\n        r_info['endpoint_repr'] = _trunc(repr(r.endpoint))\n"))
+B('k18e_dataclass_repr_field', ['C18'], 'R18.e', (A, "class DispatchState(object):", '''@dataclass
+class AppSummary:
+    name: str
+    app_resources: dict
+
+
+class DispatchState(object):'''), (A, "import attr\n", "import attr\nfrom dataclasses import dataclass\n"))
+T('k18e_dataclass_field_not_printed', ['C18'], (A, "class DispatchState(object):", '''@dataclass
+class AppSummary:
+    name: str
+    resource_names: list
+    app_resources: dict = field(default_factory=dict, repr=False)
+
+
+class DispatchState(object):'''), (A, "import attr\n", "import attr\nfrom dataclasses import dataclass, field\n"))
+T('k18e_repr_reads_group_key', ['C18'], (META, "    def get_general_items(self):\n        \"Returns list of 2-tuples to appear in the general section table\"\n",
+                                         "    def __repr__(self):\n        return '<%s group_key=%r title=%r>' % (self.__class__.__name__, self.group_key, self.title)\n\n    def get_general_items(self):\n        \"Returns list of 2-tuples to appear in the general section table\"\n"))
+
+# R18.e in other shapes: the representation assembled by a helper method / by a mixin from a table of attribute names
+_PAIRS_REPR = '''    def repr_pairs(self):
+        return [('routes_count', len(self.routes)), ('resources_keys', sorted(self.resources)),
+                ('middlewares', self.middlewares), ('debug', self.debug)]
+
+    def __repr__(self):
+        return '<%s %s>' % (self.__class__.__name__, ' '.join('%s=%r' % pair for pair in self.repr_pairs()))
+'''
+T('k18e_repr_from_pairs_method', ['C18'], (A, _APP_REPR_DEF, _PAIRS_REPR))
+B('k18e_repr_from_pairs_method_values', ['C18'], 'R18.e', (A, _APP_REPR_DEF, _PAIRS_REPR.replace("('resources_keys', sorted(self.resources))", "('resources', dict(self.resources))")))
+_MIXIN = '''class AttrReprMixin(object):
+    repr_attrs = ()
+
+    def __repr__(self):
+        shown = ' '.join('%s=%r' % (name, getattr(self, name)) for name in self.repr_attrs)
+        return '<%s %s>' % (self.__class__.__name__, shown)
+
+
+class Application(AttrReprMixin):
+    repr_attrs = ('middlewares', 'render_factory', 'slash_mode', 'debug')
+'''
+T('k18e_repr_mixin_attr_table', ['C18'], (A, "class Application(object):\n", _MIXIN), (A, _APP_REPR_DEF, ''))
+B('k18e_repr_mixin_attr_table_resources', ['C18'], 'R18.e', (A, "class Application(object):\n", _MIXIN.replace("('middlewares', ", "('resources', 'middlewares', ")), (A, _APP_REPR_DEF, ''))
+B('k18e_repr_assigned_function', ['C18'], 'R18.e', (A, "class Application(object):\n", '''def _show_all(obj):
+    return '<%s %r>' % (obj.__class__.__name__, obj.resources)
+
+
+class Application(object):
+    __str__ = _show_all
+'''))
+T('k18e_view_calls_iter_routes', ['C18'], (META, "    for r in app.routes:\n        if isinstance(r, NullRoute):", "    for r in app.iter_routes():\n        if isinstance(r, NullRoute):"))
+T('k18f_rows_from_zip_and_namedtuple', ['C18'], (META, GMI, '''_MW_FIELDS = ('type_name', 'provides', 'requires', 'repr')
+
+
+def get_mw_infos(_application):
+    ret = []
+    for mw in _application.middlewares:
+        values = (mw.__class__.__name__, mw.provides, mw.requires, repr(mw))
+        ret.append(dict(zip(_MW_FIELDS, values)))
+    return ret
+'''))
+B('k18b_format_method_shows_key', ['C18'], 'R18.b', (CK, "    def __repr__(self):\n        cn = self.__class__.__name__\n        return ('%s(arg_name=%r, cookie_name=%r)'",
+                                                     "    def __format__(self, spec):\n        return '%s(%s)' % (self.__class__.__name__, self.secret_key)\n\n    def __repr__(self):\n        cn = self.__class__.__name__\n        return ('%s(arg_name=%r, cookie_name=%r)'"))
+
+# R18.a: inside the loop over the resources nothing but the 'secret' test decides what is listed
+B('k18_listing_skips_private_names', ['C18'], 'R18.a', (META, "    for key, val in _application.resources.items():\n        if 'secret' in key:",
+                                                        "    for key, val in _application.resources.items():\n        if key.startswith('_'):\n            continue\n        if 'secret' in key:"))
+B('k18_listing_capped', ['C18'], 'R18.a', (META, "        ret.append({'key': key, 'value': trunc_val})\n    return ret", "        ret.append({'key': key, 'value': trunc_val})\n        if len(ret) >= 20:\n            break\n    return ret"))
+B('k18_listing_comprehension_filter', ['C18'], 'R18.a', (META, GRI, '''def get_resource_info(_application):
+    return [{'key': key, 'value': '[REDACTED]' if 'secret' in key else _trunc(repr(val))}
+            for key, val in _application.resources.items() if not key.startswith('_')]
+'''))
+B('k18_listing_redacts_more_than_secrets', ['C18'], 'R18.a', (META, "        if 'secret' in key:\n            trunc_val = '[REDACTED]'", "        if 'secret' in key or not isinstance(val, str):\n            trunc_val = '[REDACTED]'"))
+B('k18_listing_only_string_values', ['C18'], 'R18.a', (META, "        ret.append({'key': key, 'value': trunc_val})\n    return ret", "        if isinstance(val, (str, bytes, int, float)):\n            ret.append({'key': key, 'value': trunc_val})\n    return ret"))
